@@ -181,6 +181,9 @@ type c22Scn struct {
 	forceG1        []c22W // corpus: exactly these writer operations right before the transition's stream read
 	winClear       bool   // a clear happened inside a request window
 	nLost          int    // writer ops whose delivery to the node was lost while the subscription was live
+	drift          bool   // the broker's stream lacks a change of the ground truth
+	eph            bool   // ephemeral (streamless) channel: oracle-only scenario
+	defaults       bool   // channel options leave the auto-derived fields (StreamSize, ...) at their defaults
 	falseRecovered bool
 	sawTrim, sawErr, sawPages, sawStream, sawRecover bool
 }
@@ -342,7 +345,7 @@ func (s *c22Scn) doW(w c22W, inGate bool) string {
 		}
 		s.epoch(res.Position.Epoch)
 		s.log = append(s.log, c22Change{res.Position.Offset, w.key, v})
-		if res.Position.Offset != uint64(len(s.log)) {
+		if res.Position.Offset != uint64(len(s.log)) && !s.drift {
 			s.bad = fmt.Sprintf("publish offset %d, expected %d", res.Position.Offset, len(s.log))
 		}
 		s.jev = append(s.jev, fmt.Sprintf("  pub k%d=%d off=%d", w.key, v, res.Position.Offset))
@@ -389,7 +392,10 @@ func (s *c22Scn) doW(w c22W, inGate bool) string {
 			h.RUnlock()
 			s.log = append(s.log, c22Change{off, w.key, 0})
 			if off != uint64(len(s.log)) {
-				s.bad = fmt.Sprintf("expiry offset %d, expected %d", off, len(s.log))
+				// the removal of an expired key is a change like any other and belongs into the stream; when
+				// the broker did not append it the ground truth keeps it - the oracle judges the recovery
+				s.drift = true
+				s.jev = append(s.jev, fmt.Sprintf("  (stream top %d after the expiry, the change log has %d changes)", off, len(s.log)))
 			}
 		}
 		s.jev = append(s.jev, fmt.Sprintf("  key-expiry k%d present=%v", w.key, present))
@@ -701,7 +707,7 @@ func (s *c22Scn) doEvW() {
 	gapBefore := false
 	if live {
 		off, ep := s.serverPos()
-		gapBefore = s.epochIdx[ep] == s.clears && off < uint64(len(s.log))
+		gapBefore = !s.drift && s.epochIdx[ep] == s.clears && off < uint64(len(s.log))
 	}
 	nlog := len(s.log)
 	term := s.doW(w, false)
@@ -869,6 +875,19 @@ func TestVerifC22(t *testing.T) {
 			s.tlimit = 2 + r.Intn(3)
 			mo.LiveTransitionMaxPublicationLimit = s.tlimit
 		}
+		if s.size == 100 && r.Intn(2) == 0 {
+			// rely on the documented auto-derived defaults (StreamSize 100, StreamTTL, MetaTTL)
+			mo.StreamSize = 0
+			s.defaults = true
+			if s.limit == 100 {
+				mo.MinPageSize = 0
+			}
+		}
+		s.eph = i%9 == 8 || i == 5
+		if s.eph {
+			mo = MapChannelOptions{Mode: MapModeEphemeral, KeyTTL: 600 * time.Second, MinPageSize: 1}
+			s.defaults = false
+		}
 		e.mu.Lock()
 		e.mapOpts[s.ch] = mo
 		e.subOpts[s.ch] = SubscribeOptions{Type: SubscriptionTypeMap, AllowTagsFilter: true}
@@ -916,8 +935,20 @@ func TestVerifC22(t *testing.T) {
 				s.vis[k] = true
 			}
 			forced = []string{"pub0", "pub1", "pub2", "req", "req-clear-before-stream-read", "check", "req", "req", "check"}
+		case 4: // corpus: options with every auto-derived field left at its default; a key expires while the client is away
+			s.size, s.limit, s.defaults = 100, 100, true
+			e.mu.Lock()
+			e.mapOpts[s.ch] = MapChannelOptions{Mode: MapModeRecoverable, KeyTTL: 600 * time.Second}
+			e.mu.Unlock()
+			s.filter = false
+			for k := range s.vis {
+				s.vis[k] = true
+			}
+			forced = []string{"pub0", "pub1", "pub2", "req", "drop", "expire-key0", "pub1", "req", "check"}
 		}
-		if forced != nil {
+		if s.eph {
+			s.runEphemeral(i == 5)
+		} else if forced != nil {
 			for _, f := range forced {
 				switch {
 				case f == "req":
@@ -929,6 +960,11 @@ func TestVerifC22(t *testing.T) {
 					s.doDrop()
 				case f == "check":
 					s.doCheck()
+				case len(f) > 10 && f[:10] == "expire-key":
+					var k int
+					_, _ = fmt.Sscanf(f, "expire-key%d", &k)
+					s.events = append(s.events, vApp("EvW", s.doW(c22W{"expire-key", k}, false)))
+					s.obs = append(s.obs, "BNone")
 				case f == "expire-stream" || f == "clear":
 					s.events = append(s.events, vApp("EvW", s.doW(c22W{f, 0}, false)))
 					s.obs = append(s.obs, "BNone")
@@ -1028,6 +1064,12 @@ func TestVerifC22(t *testing.T) {
 		if s.nLost > 0 {
 			class += "+lost-delivery"
 		}
+		if s.defaults {
+			class += "+default-options"
+		}
+		if s.eph {
+			class = "map-sub-ephemeral" + class[len("map-sub"):]
+		}
 		if s.sawErr {
 			class += "+told"
 		}
@@ -1048,6 +1090,9 @@ func TestVerifC22(t *testing.T) {
 					if s.winClear {
 						finding = "map-clear-inside-request-undetected"
 					}
+					if s.eph {
+						finding = "map-ephemeral-epoch-change-undetected"
+					}
 				}
 			}
 		}
@@ -1063,6 +1108,188 @@ func TestVerifC22(t *testing.T) {
 		w.Case(i, term, map[string]any{"class": class, "script": s.jev, "size": s.size, "limit": s.limit, "tlimit": s.tlimit,
 			"vis": s.vis, "client": s.cmap, "broker": bm, "told": told, "finding": finding}, class,
 			(s.sawPages || s.sawStream || s.sawRecover) && len(s.events) >= 8)
+	}
+}
+
+// ---------------------------------------------------------------- ephemeral (streamless) channels
+//
+// Oracle-only (no events are handed to the model, which is the positioned protocol): state pages, then
+// live; no stream, no recovery. A change to a key the client has already paged is lost by design of this
+// mode, so writers between two pages only touch keys AFTER the cursor - or clear the channel (and
+// re-populate it), which the next page must refuse (new epoch). While live every change is pushed.
+func (s *c22Scn) ephWrite(kind string, key int) {
+	ctx := context.Background()
+	h := s.e.mb.mapHub
+	switch kind {
+	case "pub":
+		s.nextVal++
+		res, err := s.e.mb.Publish(ctx, s.ch, c22KeyName(key), MapPublishOptions{Data: c22Data(s.nextVal), Tags: s.tags(key)})
+		if err != nil || res.Suppressed {
+			s.bad = fmt.Sprintf("publish: %v", err)
+		}
+		s.jev = append(s.jev, fmt.Sprintf("  pub k%d=%d", key, s.nextVal))
+	case "rem":
+		res, err := s.e.mb.Remove(ctx, s.ch, c22KeyName(key), MapRemoveOptions{})
+		if err != nil {
+			s.bad = "remove: " + err.Error()
+		}
+		s.jev = append(s.jev, fmt.Sprintf("  rem k%d suppressed=%v", key, res.Suppressed))
+	case "expire-key":
+		h.Lock()
+		present := false
+		if channel, ok := h.channels[s.ch]; ok {
+			if entry, ok := channel.state[c22KeyName(key)]; ok {
+				present = true
+				past := time.Now().UnixMilli() - 1000
+				entry.ExpireAt = past
+				chKey := h.makeChKey(s.ch, c22KeyName(key))
+				h.keyExpires[chKey] = past
+				heap.Push(&h.keyExpireQueue, &priority.Item{Value: chKey, Priority: past})
+				h.nextKeyExpireCheck = past
+			}
+		}
+		h.Unlock()
+		if present {
+			var next int64
+			h.expireKeysIteration(&next)
+		}
+		s.jev = append(s.jev, fmt.Sprintf("  key-expiry k%d present=%v", key, present))
+	case "clear":
+		if err := s.e.mb.Clear(ctx, s.ch, MapClearOptions{}); err != nil {
+			s.bad = "clear: " + err.Error()
+		}
+		s.clears++
+		s.jev = append(s.jev, "  clear")
+	}
+}
+
+func (s *c22Scn) ephKind() string {
+	switch x := s.r.Intn(100); {
+	case x < 65:
+		return "pub"
+	case x < 88:
+		return "rem"
+	default:
+		return "expire-key"
+	}
+}
+
+func (s *c22Scn) runEphemeral(corpus bool) {
+	first := true
+	var cursor, epoch string
+	var offset uint64
+	request := func() {
+		req := &protocol.SubscribeRequest{Channel: s.ch, Type: int32(SubscriptionTypeMap), Limit: int32(s.limit), Phase: MapPhaseState}
+		if s.filter {
+			req.Tf = &protocol.FilterNode{Key: "vis", Cmp: "eq", Val: "1"}
+		}
+		if !first {
+			req.Cursor, req.Offset, req.Epoch = cursor, offset, epoch
+		}
+		s.jev = append(s.jev, fmt.Sprintf("request cursor=%q off=%d first=%v", req.Cursor, req.Offset, first))
+		rw := testReplyWriterWrapper()
+		err := s.client.handleSubscribe(req, &protocol.Command{Id: 2}, time.Now(), rw.rw)
+		switch {
+		case err != nil:
+			if _, ok := err.(*Error); !ok {
+				s.reconnect()
+			}
+			first, s.phase = true, "told-unrecoverable"
+			s.sawErr = true
+			s.jev = append(s.jev, fmt.Sprintf("  -> error %v", err))
+		case len(rw.replies) == 0:
+			s.reconnect()
+			first, s.phase = true, "told-unrecoverable"
+			s.sawErr = true
+			s.jev = append(s.jev, "  -> disconnect")
+		case rw.replies[0].Error != nil:
+			first, s.phase = true, "told-unrecoverable"
+			s.sawErr = true
+			s.jev = append(s.jev, fmt.Sprintf("  -> error %d", rw.replies[0].Error.Code))
+		default:
+			res := rw.replies[0].Subscribe
+			if first {
+				s.cmap = map[int]uint64{}
+				epoch, offset = res.Epoch, res.Offset
+			}
+			s.applyEntries(res.State)
+			s.applyPubs(res.Publications)
+			if res.Phase == MapPhaseLive {
+				s.phase, first = "live", true
+				s.jev = append(s.jev, fmt.Sprintf("  -> live entries=%d pubs=%d", len(res.State), len(res.Publications)))
+			} else {
+				s.phase, first, cursor = "pages", false, res.Cursor
+				s.sawPages = true
+				s.jev = append(s.jev, fmt.Sprintf("  -> state page entries=%d cursor=%q", len(res.State), res.Cursor))
+			}
+		}
+	}
+	liveWrite := func() {
+		s.ephWrite(s.ephKind(), s.r.Intn(c22K))
+		got := s.drain()
+		s.applyPubs(got.pubs)
+		if got.unsub {
+			s.phase, first = "told-unrecoverable", true
+		}
+	}
+	if corpus {
+		// the channel is cleared and re-populated between two state pages
+		s.filter, s.limit = false, 2
+		for k := range s.vis {
+			s.vis[k] = true
+		}
+		for k := 0; k < 4; k++ {
+			s.ephWrite("pub", k)
+		}
+		request()
+		s.ephWrite("clear", 0)
+		s.winClear = true
+		for k := 3; k < 6; k++ {
+			s.ephWrite("pub", k)
+		}
+	} else {
+		if s.limit > 3 {
+			s.limit = 1 + s.r.Intn(3)
+		}
+		for j := 2 + s.r.Intn(6); j > 0; j-- {
+			s.ephWrite("pub", s.r.Intn(c22K))
+		}
+		n := 8 + s.r.Intn(14)
+		for j := 0; j < n && s.bad == ""; j++ {
+			x := s.r.Intn(100)
+			switch {
+			case s.phase == "live" && x < 15:
+				// the client leaves; an ephemeral channel has no recovery: it subscribes from scratch later
+				rw := testReplyWriterWrapper()
+				_ = s.client.handleUnsubscribe(&protocol.UnsubscribeRequest{Channel: s.ch}, &protocol.Command{Id: 3}, time.Now(), rw.rw)
+				s.phase, first = "fresh", true
+				s.jev = append(s.jev, "unsubscribe")
+			case s.phase == "live":
+				liveWrite()
+			case x < 55:
+				request()
+			case s.phase == "pages" && x < 70:
+				s.ephWrite("clear", 0)
+				s.winClear = true
+				for q := s.r.Intn(4); q > 0; q-- {
+					s.ephWrite("pub", s.r.Intn(c22K))
+				}
+			case s.phase == "pages":
+				// only keys after the cursor: the pages still to come reflect the change
+				if c := c22KeyOf(cursor); c+1 < c22K {
+					s.ephWrite(s.ephKind(), c+1+s.r.Intn(c22K-c-1))
+				}
+			default:
+				kind := s.ephKind()
+				if s.r.Intn(12) == 0 {
+					kind = "clear"
+				}
+				s.ephWrite(kind, s.r.Intn(c22K))
+			}
+		}
+	}
+	for j := 0; j < 12 && s.phase != "live" && s.bad == ""; j++ {
+		request()
 	}
 }
 
